@@ -567,3 +567,87 @@ Proof.
   rewrite V. auto.
 Qed.
 
+
+(* limb code of sm2_z256_modp_haf = value-level model, all 256-bit operands *)
+Theorem modp_haf_limbs : forall a, z256_ok a ->
+  z256_ok (z256_modp_haf a) /\ val (z256_modp_haf a) = vmod_haf ZOps KpZ (val a).
+Proof.
+  intros a Ha. pose proof Ha as Ha'.
+  destruct (z256_ok_inv a Ha) as (a0 & a1 & a2 & a3 & -> & A0 & A1 & A2 & A3).
+  unfold z256_modp_haf, vmod_haf. cbn [nth]. cbn [nmod nadd nmul ndiv neqb ZOps T].
+  change (k2 KpZ) with 2. change (k1 KpZ) with 1. change (kR KpZ) with (2^256). change (km KpZ) with c_p.
+  assert (EL : Z.land a0 1 = a0 mod 2) by (change 1 with (Z.ones 1); rewrite Z.land_ones by lia; reflexivity).
+  rewrite !EL.
+  assert (Par : val [a0; a1; a2; a3] mod 2 = a0 mod 2).
+  { cbn [val]. unfold limb_ok in *. lia. }
+  rewrite Par. destruct (Z.eqb_spec (a0 mod 2) 1) as [Odd|Even].
+  - destruct (add_spec _ _ Ha' P_ok) as (R & C & E). destruct (add_value _ _ Ha' P_ok) as (V & Cv).
+    unfold vadd. cbn [nmod nadd ndiv ZOps T]. change (kR KpZ) with (2^256).
+    change (val SM2_Z256_P) with c_p in V, Cv, E.
+    destruct (z256_add [a0; a1; a2; a3] SM2_Z256_P) as [r c]. cbn [fst snd] in *.
+    destruct (z256_ok_inv r R) as (r0 & r1 & r2 & r3 & -> & R0 & R1 & R2 & R3).
+    destruct (haf_shift r0 r1 r2 r3 c R0 R1 R2 R3 C) as [O Vh]. cbv zeta in O, Vh.
+    cbv beta iota. split; [exact O|]. rewrite Vh, V, Cv. reflexivity.
+  - destruct (haf_shift a0 a1 a2 a3 0 A0 A1 A2 A3 ltac:(left; reflexivity)) as [O Vh]. cbv zeta in O, Vh.
+    cbv beta iota. split; [exact O|]. rewrite Vh. rewrite Z.mul_0_l, Z.add_0_r. reflexivity.
+Qed.
+
+(* ---------------- the modn family: non-Montgomery wrappers ---------------- *)
+Lemma frm_n_range : forall x, 0 <= frm KnZ Rinv_n x < c_n.
+Proof. intros. unfold frm. change (km KnZ) with c_n. apply Z.mod_pos_bound. reflexivity. Qed.
+Theorem to_from_mont_n : forall a, 0 <= a < c_n ->
+  frm KnZ Rinv_n (vto_mont ZOps Z.ltb KnZ a) = a /\ 0 <= vto_mont ZOps Z.ltb KnZ a < c_n /\
+  vfrom_mont ZOps Z.ltb KnZ a = frm KnZ Rinv_n a.
+Proof.
+  intros a Ha. unfold vto_mont, vfrom_mont. pose proof c_n_pos as Hp.
+  assert (Hr2 : 0 <= kr2 KnZ < c_n) by numc.
+  assert (H1 : 0 <= k1 KnZ < c_n) by numc.
+  destruct (frm_mm KnZ KnZ_ok Rinv_n Rinv_n_ok a (kr2 KnZ) Ha Hr2) as (B & F).
+  destruct (frm_mm KnZ KnZ_ok Rinv_n Rinv_n_ok a (k1 KnZ) Ha H1) as (B1 & F1).
+  destruct (vmont_mul_spec KnZ KnZ_ok a (k1 KnZ) Ha H1) as (_ & E1).
+  repeat split; try apply B.
+  - rewrite F. unfold frm at 1 2. change (km KnZ) with c_n.
+    rewrite <- Z.mul_mod by lia.
+    replace (a * Rinv_n * (kr2 KnZ * Rinv_n)) with (a * (kr2 KnZ * Rinv_n * Rinv_n)) by ring.
+    rewrite Z.mul_mod by lia.
+    replace ((kr2 KnZ * Rinv_n * Rinv_n) mod c_n) with 1 by (vm_compute; reflexivity).
+    rewrite Z.mul_1_r, Z.mod_mod by lia. apply Z.mod_small. exact Ha.
+  - unfold frm. change (km KnZ) with c_n in *. set (res := vmont_mul ZOps Z.ltb KnZ a (k1 KnZ)) in *.
+    rewrite <- (Z.mod_small res c_n) by exact B1.
+    replace res with (res * 1) at 1 by ring. rewrite <- Rinv_n_ok.
+    rewrite Z.mul_mod_idemp_r by lia.
+    replace (res * (2^256 * Rinv_n)) with ((res * 2^256) * Rinv_n) by ring.
+    rewrite Z.mul_mod by lia. rewrite E1. change (k1 KnZ) with 1. rewrite Z.mul_1_r.
+    rewrite <- Z.mul_mod by lia. reflexivity.
+Qed.
+
+Theorem modn_mul_spec : forall a b, 0 <= a < c_n -> 0 <= b < c_n ->
+  vmodn_mul ZOps Z.ltb KnZ a b = (a * b) mod c_n.
+Proof.
+  intros a b Ha Hb. unfold vmodn_mul. pose proof c_n_pos.
+  destruct (to_from_mont_n a Ha) as (Da & Oa & _). destruct (to_from_mont_n b Hb) as (Db & Ob & _).
+  destruct (frm_mm KnZ KnZ_ok Rinv_n Rinv_n_ok _ _ Oa Ob) as (Om & Fm).
+  destruct (to_from_mont_n _ Om) as (_ & _ & Ff). rewrite Ff, Fm, Da, Db. reflexivity.
+Qed.
+Theorem modn_sqr_spec : forall a, 0 <= a < c_n -> vmodn_sqr ZOps Z.ltb KnZ a = (a * a) mod c_n.
+Proof. intros a Ha. exact (modn_mul_spec a a Ha Ha). Qed.
+Theorem modn_inv_pow : forall a, 0 <= a < c_n ->
+  vmodn_inv ZOps Z.ltb KnZ a = a ^ (c_n - 2) mod c_n.
+Proof.
+  intros a Ha. unfold vmodn_inv.
+  destruct (to_from_mont_n a Ha) as (Da & Oa & _).
+  destruct (modn_mont_inv_pow _ Oa) as (Oi & Fi). cbv zeta in Oi, Fi.
+  destruct (to_from_mont_n _ Oi) as (_ & _ & Ff). rewrite Ff, Fi, Da. reflexivity.
+Qed.
+(* = the inverse under Fermat's little theorem for n (i.e. n prime): explicit premise *)
+Theorem modn_inv_partial :
+  (forall x, 0 < x < c_n -> x ^ (c_n - 1) mod c_n = 1) ->
+  forall a, 0 < a < c_n -> (vmodn_inv ZOps Z.ltb KnZ a * a) mod c_n = 1.
+Proof.
+  intros Fermat a Ha. rewrite modn_inv_pow by lia. pose proof c_n_pos.
+  rewrite Z.mul_mod_idemp_l by lia.
+  replace (a ^ (c_n - 2) * a) with (a ^ (c_n - 1)).
+  - apply Fermat. exact Ha.
+  - replace (c_n - 1) with (c_n - 2 + 1) by ring. rewrite Z.pow_add_r by (try lia; vm_compute; discriminate).
+    rewrite Z.pow_1_r. reflexivity.
+Qed.
